@@ -15,7 +15,7 @@
 //!                   pre_start): the guard's cleanup -- terminate() of a's subtree -- runs inline, so the
 //!                   actors it killed have NOT yet been polled when the next operations are issued
 //! stdout, one Coq-syntax term per scenario:
-//!   [(snapshot, [spawn results]) after each settle]   snapshot = [(rank, [children], sup); ...]
+//!   [(snapshot, [spawn results], [(c, p) links accepted in the window]) after each settle]   snapshot = [(rank, [children], sup); ...]
 use std::sync::{Arc, Mutex};
 use std::time::Duration;
 
@@ -245,6 +245,7 @@ async fn run_scenario(line: &str) -> String {
     let n = idx(n.trim());
     let mut slots: Vec<Option<Arc<Slot>>> = (0..n).map(|_| None).collect();
     let mut snaps: Vec<String> = Vec::new();
+    let mut links: Vec<(usize, usize)> = Vec::new(); // links accepted in the current window (last per child)
     for op in ops.split(';') {
         let t: Vec<&str> = op.split_whitespace().collect();
         if t.is_empty() {
@@ -354,11 +355,18 @@ async fn run_scenario(line: &str) -> String {
             }
             "link" => {
                 if let (Some(c), Some(p)) = (cell_of(&slots, idx(t[1])), cell_of(&slots, idx(t[2]))) {
+                    let pid = p.get_id();
                     c.link(p);
+                    // link() returns nothing: whether it was accepted is read back at once (no await in between)
+                    if c.try_get_supervisor().is_some_and(|s| s.get_id() == pid) {
+                        links.retain(|(x, _)| *x != idx(t[1]));
+                        links.push((idx(t[1]), idx(t[2])));
+                    }
                 }
             }
             "unlink" => {
                 if let (Some(c), Some(p)) = (cell_of(&slots, idx(t[1])), cell_of(&slots, idx(t[2]))) {
+                    links.retain(|(x, _)| *x != idx(t[1]));
                     c.unlink(p);
                 }
             }
@@ -382,7 +390,9 @@ async fn run_scenario(line: &str) -> String {
             }
             "settle" => {
                 settle().await;
-                snaps.push(format!("({}, {})", snapshot(&slots), results(&slots)));
+                let l: Vec<String> = links.iter().map(|(c, p)| format!("({c}, {p})")).collect();
+                links.clear();
+                snaps.push(format!("({}, {}, {})", snapshot(&slots), results(&slots), coq_list(&l)));
             }
             other => panic!("unknown op {other:?}"),
         }
